@@ -470,6 +470,53 @@ func (w *World) oracleDelivery() {
 	}
 }
 
+// confirmationsNotified: a relevant tx in a block the node processed (block on the node's chain, its
+// header announced to the handlers) has a notification carrying a proof for that block - a new tx
+// or, if it had been delivered before (also before a clean restart), an update.
+func (w *World) confirmationsNotified() {
+	if w.everReorged || len(w.crashes) > 0 {
+		return
+	}
+	t0 := w.tracks(0)
+	for _, n := range w.txOrder {
+		if !w.relevant(n) {
+			continue
+		}
+		b := w.minedIn(n)
+		if b == nil || !w.onNodeChain(b) || b.height < w.startHeightOnBest() {
+			continue
+		}
+		processed := false
+		for _, e := range w.H[0].events {
+			if e.Kind == "headers" && e.Hash == b.hash {
+				processed = true
+			}
+		}
+		if !processed {
+			continue
+		}
+		ok := false
+		before := false
+		if t := t0[n]; t != nil {
+			for i, s := range t.states {
+				if s.MerkleProof != nil && *s.MerkleProof.BlockHeader.BlockHash() == b.hash {
+					ok = true
+				}
+				if s.MerkleProof == nil && t.gens[i] != w.nodeGen {
+					before = true
+				}
+			}
+		}
+		if !ok {
+			prop, cls := "C03", "relevant tx confirmed in a processed block got no notification with a proof"
+			if before {
+				prop, cls = "C11", cls+" (delivered before a clean restart)"
+			}
+			w.fail(prop, "confirmation-notified", cls, fmt.Sprintf("tx %s is in block %s, which the node processed, but no HandleTx/HandleTxUpdate with a proof for that block exists", n, b.name))
+		}
+	}
+}
+
 // shouldBeDelivered: body reached the node while it was in sync on a listened connection, was
 // fed locally, or sits in a block of the node's chain at or above the start height.
 func (w *World) shouldBeDelivered(name string) (bool, string) {
